@@ -262,7 +262,7 @@ def run_config(cfg, e):
             ids = [e.int('id%d' % i, 0) for i in range(n)]
             for a, b in itertools.combinations(ids, 2):
                 e.assume(a != b)
-            vals = [e.int('v0'), STRS[(n + len(ext)) % len(STRS)]][:n]
+            vals = [e.int('v0'), STRS[e.choice('str', list(range(len(STRS))))]][:n]
             data = dict(zip(ids, vals))
             e.case_builder = lambda ev: {'kind': kind, 'ext': ext, 'ids': ev(ids), 'vals': [ev(v) if isinstance(v, core.Sym) else v for v in vals]}
             try:
